@@ -424,8 +424,8 @@ func TestWorker(t *testing.T) {
 			break
 		}
 		doRun(i)
-		if len(reported) >= 3 {
-			break // enough distinct violations from this worker
+		if len(reported) >= 1 {
+			break // one minimised violation per worker is enough; the check fails anyway
 		}
 	}
 }
